@@ -66,6 +66,31 @@ def snapshot(obj, *, skip=(), _depth=0, _seen=None):
     return ("repr", repr(obj))
 
 
+def public_state(defn):
+    """what 'parsing never modifies the definition' is judged on: the XML the definition serialises to, and every PUBLIC attribute (names
+    not starting with an underscore) of the objects in its graph.  Private attributes (caches) are not part of a definition's meaning; a
+    cache that changes RESULTS is caught by the behavioural obligations instead."""
+    import lxml.etree as ET
+
+    def strip(x):
+        if isinstance(x, tuple):
+            return tuple(strip(v) for v in x if not (isinstance(v, tuple) and len(v) == 2 and isinstance(v[0], str) and v[0].startswith("_")))
+        if isinstance(x, dict):
+            return {k: strip(v) for k, v in x.items()}
+        return x
+    saved = defn.date
+    try:
+        if defn.date is None:
+            defn.date = "2000-01-01T00:00:00"
+        try:
+            xml = ET.tostring(defn.to_xml_tree())
+        except Exception as e:      # noqa: BLE001 - unwritable definitions are C09's subject
+            xml = "unwritable:" + type(e).__name__
+    finally:
+        defn.date = saved
+    return xml, strip(definition_snapshot(defn))
+
+
 def definition_snapshot(defn, *, skip_namespace=False):
     """types / parameters / containers of a definition, dictionary order kept"""
     skip = NAMESPACE_BOOKKEEPING if skip_namespace else ()
